@@ -352,3 +352,27 @@ func lemmaOriginRoundTrip(p []byte) ([]byte, int) {
 //@   loop 2: use forall k: oposGroup(i+j, k)
 //@   loop 2: use forall k: posBefore(k, i+j)
 //@   loop 2: decreases 60 - j
+
+// insdc.go / date.go: no-panic contracts (C07).
+//@ func qualifierNameParser$1(state *pars.State, result *pars.Result) (err error)
+//@   prop C07
+//@   requires !isnil(state) && !isnil(result)
+//@ func quotedQualifierParser$1(state *pars.State, result *pars.Result) (err error)
+//@   prop C07
+//@   requires !isnil(state) && !isnil(result) && len(p) >= 1
+//@   loop 1: invariant i < 0 || i + len(p) <= len(token)
+//@ func literalQualifierValueParser$1(state *pars.State, result *pars.Result) (err error)
+//@   prop C07
+//@   requires !isnil(state) && !isnil(result)
+//@ func literalQualifierParser$1(state *pars.State, result *pars.Result) (err error)
+//@   prop C07
+//@   requires !isnil(state) && !isnil(result)
+//@ func searchString(s string, ss []string) (r bool)
+//@   prop C07
+//@ func isLeapYear(year int) (r bool)
+//@   prop C07
+//@   ensures r <==> (year%4 == 0 && (year%100 != 0 || year%400 == 0))
+//@ func checkDate(year int, month time.Month, day int) (err error)
+//@   prop C07
+//@ func AsDate(s string) (d Date, err error)
+//@   prop C07
